@@ -51,7 +51,7 @@ class LogWorld:
         self.rnd = rnd
         texts = ['text of %s' % k for k in STR_KEYS] + ['literal %d' % i for i in range(6)] + ['%d', 'tok', 'type ns', 'obj repr']
         rnd.shuffle(texts)
-        self.strings = {i + 1: t for i, t in enumerate(texts)}          # id -> text (ids are 1-based positions)
+        self.strings = {i: t for i, t in enumerate(texts)}              # id -> text (string numbers start at 0)
         self.sid = {t: i for i, t in self.strings.items()}
         self.key_sid = {k: self.sid['text of %s' % k] for k in STR_KEYS}
 
@@ -66,13 +66,13 @@ class LogWorld:
         nseg = shape
         segs_raw, segs_abs = [], []
         for j in range(nseg):
-            seg, ab = {}, [0, [], []]
+            seg, ab = {}, [-1, [], []]
             if rnd.random() < 0.8:
                 seg['lp'] = lit[j % 6]
                 ab[0] = seg['lp']
             if rnd.random() < 0.8:
                 ph = {'w': rnd.randrange(0, 9), 'p': rnd.randrange(0, 80)}
-                a_ph = [0, 0, 0, ph['w'], ph['p'], []]
+                a_ph = [-1, -1, -1, ph['w'], ph['p'], []]
                 if rnd.random() < 0.7:
                     ph['rs'] = self.sid['%d']
                     a_ph[0] = ph['rs']
@@ -124,12 +124,12 @@ class LogWorld:
         if 'segments' in d:
             segs = []
             for s in d['segments']:
-                ab = [self.sid.get(s['literal_prefix'], -2) if 'literal_prefix' in s else 0, [], []]
+                ab = [self.sid.get(s['literal_prefix'], -2) if 'literal_prefix' in s else -1, [], []]
                 if 'placeholder' in s:
                     p = s['placeholder']
-                    ab[1] = [self.sid.get(p['raw_string'], -2) if 'raw_string' in p else 0,
-                             self.sid.get(p['type_namespace'], -2) if 'type_namespace' in p else 0,
-                             self.sid.get(p['type'], -2) if 'type' in p else 0, p.get('width', -2), p.get('precision', -2),
+                    ab[1] = [self.sid.get(p['raw_string'], -2) if 'raw_string' in p else -1,
+                             self.sid.get(p['type_namespace'], -2) if 'type_namespace' in p else -1,
+                             self.sid.get(p['type'], -2) if 'type' in p else -1, p.get('width', -2), p.get('precision', -2),
                              [self.sid.get(t, -2) for t in p.get('tokens', [])]]
                 if 'arg' in s:
                     a = s['arg']
@@ -189,7 +189,7 @@ class LogWorld:
             if v == '__missing__':
                 continue
             if k in STR_KEYS:
-                dec[f] = 0 if v == '' and k != 'cm' else self.sid.get(v, -2)
+                dec[f] = -1 if v == '' and k != 'cm' else self.sid.get(v, -2)
             elif k in SCALAR:
                 if v == inv_scalar[k] and type(v) is type(inv_scalar[k]):
                     dec[f] = TOKEN[k]
